@@ -9,6 +9,7 @@ CONSTANTS
   QSets <- QSetsDef
   BiasTrim = TRUE
   FinalAt = 60
+  ScriptMix = 30
   BigSize = 8
   SetFees <- SetFeesDef
 INIT Init
